@@ -29,7 +29,9 @@ def name_pool():
     base = ["A", "B", "READ_10", "write", "x1", "_private", "lower_case", "MiXeD", "Z9", "INQUIRY", "a", "b", "c", "d", "e", "f", "g", "_", "_0", "k_9",
             # ordinary words that an implementation might also use for its own parameters or bookkeeping
             "name", "value", "code", "type", "id", "self", "args", "kwargs", "key", "opcode", "serviceaction", "items", "values", "get",
-            "update", "pop", "dict", "enum", "data", "result", "bases", "attrs"]
+            "update", "pop", "dict", "enum", "data", "result", "bases", "attrs",
+            # names as the standards spell them (not Python identifiers) and identifiers next to Python's reserved words
+            "3RD_PARTY_COPY_OUT", "READ(12)", "WRITE 12", "PRE-FETCH", "A.B", "", " ", "in_", "from_", "is_", "class_", "in", "is", "from", "None_", "IN_", "out_"]
     # ... and the same words in another case: names are case-sensitive
     base += [n.lower() for n in base if n.lower() != n] + [n.upper() for n in base if n.upper() != n and n.upper() not in base]
     out = []
